@@ -105,6 +105,7 @@ def generate(rnd, tier):
                 args["nb_points"] = rnd.choice([2, 3, 5, 10, 11, 30])
         if fn == "roc_with_ci" and rnd.random() < 0.6:
             args["x_axis"] = rnd.choice(X_AXES)
+        arg_types = {k_: rnd.choice(["ndarray", "ndarray", "list", "tuple"]) for k_ in ("fnr", "fpr", "thresholds") if k_ in args}
         args["alpha"] = rnd.choice([0.05, 0.01, 0.5, round(rnd.uniform(0.01, 0.5), 3), round(rnd.uniform(0.5, 0.95), 2), 0.001])
         r = rnd.random()
         if r < 0.2:
@@ -121,7 +122,7 @@ def generate(rnd, tier):
             sampler = {"callable": "recording", "inner": inner} if rnd.random() < 0.75 else inner
         cfg = {"nb_samples": rnd.randint(2, 8 if big else 60) if rnd.random() < 0.8 else rnd.randint(2, 6),
                "bootstrap_method": rnd.choice(["quantile", "bc", "bca"])}
-        op = {"op": "band", "fn": fn, "args": args, "sampler": sampler, "cfg": cfg}
+        op = {"op": "band", "fn": fn, "args": args, "sampler": sampler, "cfg": cfg, "arg_types": arg_types}
         if not fault_free and rnd.random() < 0.12:
             # control-flow faults: the call may fail, the caller's objects must survive intact
             if sampler.get("callable") and rnd.random() < 0.5:
@@ -310,8 +311,14 @@ def execute(scn, ctx):
         arrs = []
         for k_ in ("fnr", "fpr", "thresholds"):
             if k_ in args:
-                kw[k_] = np.asarray(args[k_], dtype=float)
-                arrs.append(kw[k_])
+                as_ = (op.get("arg_types") or {}).get(k_, "ndarray")
+                if as_ == "list" and fn_name == "roc_with_ci":
+                    kw[k_] = [float(v) for v in args[k_]]  # documented as ArrayLike
+                elif as_ == "tuple" and fn_name == "roc_with_ci":
+                    kw[k_] = tuple(float(v) for v in args[k_])
+                else:
+                    kw[k_] = np.asarray(args[k_], dtype=float)
+                    arrs.append(kw[k_])
         if "nb_points" in args:
             kw["nb_points"] = args["nb_points"]
         if "x_axis" in args:
@@ -361,6 +368,20 @@ def execute(scn, ctx):
                 n = len(thr)
                 if not (M.same(np.asarray(curve.fnr), np.asarray(src.fnr(thr))) and M.same(np.asarray(curve.fpr), np.asarray(src.fpr(thr)))):
                     bad("rates_match_thresholds", "curve.fnr/fpr differ from scores.fnr/fpr(curve.thresholds)")
+                # documented: "We will use the union of these points" - supplied support points must be on the curve
+                try:
+                    want = []
+                    if "thresholds" in args:
+                        want += [float(v) for v in args["thresholds"]]
+                    if "fnr" in args:
+                        want += np.asarray(src.threshold_at_fnr(np.asarray(args["fnr"], dtype=float)), dtype=float).tolist()
+                    if "fpr" in args:
+                        want += np.asarray(src.threshold_at_fpr(np.asarray(args["fpr"], dtype=float)), dtype=float).tolist()
+                    missing = [v for v in want if not np.any(thr == v)]
+                    if missing:
+                        bad("supplied_points_present", f"supplied support points (as thresholds) {missing[:5]} are not among the curve's thresholds")
+                except Exception as e:  # noqa: BLE001
+                    raise RuntimeError(f"C16 support-point reference failed: {type(e).__name__}: {e}") from e
                 shapes_ok = True
                 for nm in ("fnr_ci", "fpr_ci"):
                     b = getattr(curve, nm)
